@@ -118,7 +118,6 @@ Section WithFrame.
 
   Record state := {
     st_store : storage;
-    st_released : list key;               (* per-run: one-of candidates made visible *)
     st_adddata : list (key * value);      (* per-run: additional_data per start node *)
     st_tasks : list task;                 (* creation order *)
     st_ready : list tid;                  (* FIFO *)
@@ -129,26 +128,21 @@ Section WithFrame.
   }.
 
   Definition state0 : state :=
-    {| st_store := storage0; st_released := []; st_adddata := []; st_tasks := []; st_ready := [];
+    {| st_store := storage0; st_adddata := []; st_tasks := []; st_ready := [];
        st_waiters := []; st_events := []; st_trace := []; st_next := 0 |}.
 
   Definition with_store (f : storage -> storage) (st : state) : state :=
-    {| st_store := f (st_store st); st_released := st_released st; st_adddata := st_adddata st;
+    {| st_store := f (st_store st); st_adddata := st_adddata st;
        st_tasks := st_tasks st; st_ready := st_ready st; st_waiters := st_waiters st;
        st_events := st_events st; st_trace := st_trace st; st_next := st_next st |}.
 
   Definition emit_obs (o : obs) (st : state) : state :=
-    {| st_store := st_store st; st_released := st_released st; st_adddata := st_adddata st;
+    {| st_store := st_store st; st_adddata := st_adddata st;
        st_tasks := st_tasks st; st_ready := st_ready st; st_waiters := st_waiters st;
        st_events := st_events st; st_trace := o :: st_trace st; st_next := st_next st |}.
 
-  Definition release_child (k : key) (st : state) : state :=
-    {| st_store := st_store st; st_released := add_set key_eqb k (st_released st); st_adddata := st_adddata st;
-       st_tasks := st_tasks st; st_ready := st_ready st; st_waiters := st_waiters st;
-       st_events := st_events st; st_trace := st_trace st; st_next := st_next st |}.
-
   Definition set_adddata (k : key) (v : value) (st : state) : state :=
-    {| st_store := st_store st; st_released := st_released st; st_adddata := aset key_eqb k v (st_adddata st);
+    {| st_store := st_store st; st_adddata := aset key_eqb k v (st_adddata st);
        st_tasks := st_tasks st; st_ready := st_ready st; st_waiters := st_waiters st;
        st_events := st_events st; st_trace := st_trace st; st_next := st_next st |}.
 
@@ -165,26 +159,26 @@ Section WithFrame.
     end.
 
   Definition set_tstate (t : tid) (ts : tstate) (st : state) : state :=
-    {| st_store := st_store st; st_released := st_released st; st_adddata := st_adddata st;
+    {| st_store := st_store st; st_adddata := st_adddata st;
        st_tasks := upd_task t (fun x => {| t_id := t_id x; t_name := t_name x; t_state := ts; t_helper := t_helper x |})
                             (st_tasks st);
        st_ready := st_ready st; st_waiters := st_waiters st;
        st_events := st_events st; st_trace := st_trace st; st_next := st_next st |}.
 
   Definition push_ready (t : tid) (st : state) : state :=
-    {| st_store := st_store st; st_released := st_released st; st_adddata := st_adddata st;
+    {| st_store := st_store st; st_adddata := st_adddata st;
        st_tasks := st_tasks st; st_ready := st_ready st ++ [t]; st_waiters := st_waiters st;
        st_events := st_events st; st_trace := st_trace st; st_next := st_next st |}.
 
   Definition set_waiters (w : list (wait * tid)) (st : state) : state :=
-    {| st_store := st_store st; st_released := st_released st; st_adddata := st_adddata st;
+    {| st_store := st_store st; st_adddata := st_adddata st;
        st_tasks := st_tasks st; st_ready := st_ready st; st_waiters := w;
        st_events := st_events st; st_trace := st_trace st; st_next := st_next st |}.
 
   (* asyncio.create_task: new task, first step appended to the ready queue *)
   Definition spawn (nm : tname) (helper : bool) (k : list frame) (st : state) : state * tid :=
     let t := st_next st in
-    ({| st_store := st_store st; st_released := st_released st; st_adddata := st_adddata st;
+    ({| st_store := st_store st; st_adddata := st_adddata st;
         st_tasks := st_tasks st ++ [{| t_id := t; t_name := nm; t_state := TReady k SGo; t_helper := helper |}];
         st_ready := st_ready st ++ [t]; st_waiters := st_waiters st;
         st_events := st_events st; st_trace := OSpawn t nm :: st_trace st; st_next := S t |}, t).
@@ -213,7 +207,7 @@ Section WithFrame.
   Definition notify (c : cond) (st : state) : state := wake_all (WCond c) SGo st.
 
   Definition set_event (n : key) (st : state) : state :=
-    let st1 := {| st_store := st_store st; st_released := st_released st; st_adddata := st_adddata st;
+    let st1 := {| st_store := st_store st; st_adddata := st_adddata st;
                   st_tasks := st_tasks st; st_ready := st_ready st; st_waiters := st_waiters st;
                   st_events := add_set key_eqb n (st_events st); st_trace := st_trace st; st_next := st_next st |} in
     wake_all (WEvent n) SGo st1.
@@ -262,7 +256,6 @@ Arguments TDone {frame}.
 Arguments state0 {frame}.
 Arguments with_store {frame}.
 Arguments emit_obs {frame}.
-Arguments release_child {frame}.
 Arguments set_adddata {frame}.
 Arguments find_task {frame}.
 Arguments upd_task {frame}.
@@ -283,7 +276,6 @@ Arguments helper_tids {frame}.
 Arguments suspend {frame}.
 Arguments pending_gates {frame}.
 Arguments st_store {frame}.
-Arguments st_released {frame}.
 Arguments st_adddata {frame}.
 Arguments st_tasks {frame}.
 Arguments st_ready {frame}.
